@@ -34,9 +34,13 @@ def record(P, start, mode, api, pre=None, ed=None, copy_after=False, nones=False
         ret = None if (nones and nid(n) % 2 == 1) else counter[0]
         if handles:
             ret = n
-        events.append(["L", nid(n), [val(v) for v in cs], 1000 + nid(n) if handles else (-1 if ret is None else ret)])
+        # (a list longer than any node's number of children is wrong as it stands: it is logged up to that length, so that a list that keeps growing
+        # from call to call cannot make the record quadratic)
+        events.append(["L", nid(n), [val(v) for v in cs[:maxdeg + 2]], 1000 + nid(n) if handles else (-1 if ret is None else ret)])
         cs.append(-5)            # a callback may do what it likes with the list it was handed
         return ret
+    deg = np.bincount(np.array([p for p in (list(P) + list(pre if pre is not None else [])) if p >= 0] + [0], dtype=np.int64))
+    maxdeg = int(deg.max())
     kw = {}
     if mode in ("enter", "both"):
         kw["enter"] = enter
